@@ -11,6 +11,7 @@ mod progs;
 mod report;
 mod rng;
 mod session;
+mod web;
 mod sessrec;
 mod sessrows;
 
@@ -35,6 +36,8 @@ fn main() {
             eprintln!("vh: internal panic: {}", info);
         }
     }));
+    // error Display must not include backtraces
+    std::env::set_var("RUST_BACKTRACE", "0");
     let args: Vec<String> = std::env::args().collect();
     let cmd = args.get(1).map(|s| s.as_str()).unwrap_or("");
     let mut rep = Report::default();
@@ -99,6 +102,20 @@ fn main() {
         "cli-record" => {
             cli::record(args[2].parse().unwrap(), args[3].parse().unwrap(), &args[4], &args[5], &args[6], &mut rep);
             std::fs::write(&args[7], serde_json::to_string(&rep.to_json()).unwrap()).unwrap();
+        }
+        // vh web-replay <tlc-output> <facts: 3 x 0|1> <report.json>   |   vh web-record <seed> <n> <facts> <out.ndjson> <report.json>
+        "web-replay" | "web-record" => {
+            let fa = if cmd == "web-replay" { &args[3] } else { &args[4] };
+            let b: Vec<bool> = fa.chars().map(|c| c == '1').collect();
+            let facts = web::Facts { loader_checks_error: b[0], loader_skips_blank: b[1], loader_skips_unnumbered: b[2] };
+            if cmd == "web-replay" {
+                let text = read_input(&args[2]);
+                web::replay_rows(&text, facts, &mut rep);
+                std::fs::write(&args[4], serde_json::to_string(&rep.to_json()).unwrap()).unwrap();
+            } else {
+                web::record(args[2].parse().unwrap(), args[3].parse().unwrap(), facts, &args[5], &mut rep);
+                std::fs::write(&args[6], serde_json::to_string(&rep.to_json()).unwrap()).unwrap();
+            }
         }
         // vh lex-record <seed> <n> <out.ndjson>
         "lex-record" => {
